@@ -158,11 +158,49 @@ class Spies:
         return False
 
 
+def build_with_spec(R, ins, spec):
+    """One build of a history over the Realiser's Vars: names of the arguments / results as the spec says,
+    intermediate values renamed through `Var._rename`, public `build` or the low-level Graph API."""
+    from spox import build
+
+    names = spec.get("names") or {}
+    named_ins = {names.get(role, role): var for role, var in ins.items()}
+    outs = {name: R.env[i] for name, i in spec["outs"]}
+    for var in getattr(R, "renamed", []):
+        var._rename(None)
+    R.renamed = []
+    for i, nm in (spec.get("renames") or {}).items():
+        if i in R.env:
+            R.env[i]._rename(nm)
+            R.renamed.append(R.env[i])
+    if spec.get("low"):
+        from spox._graph import results
+
+        for name, var in named_ins.items():
+            var._rename(name)
+        return results(**outs).with_arguments(*named_ins.values()).to_onnx_model()
+    return build(named_ins, outs)
+
+
+def fresh_build(prog, spec):
+    """The same build on fresh objects (nothing was built before): (model, error)."""
+    try:
+        with warnings.catch_warnings():
+            warnings.simplefilter("ignore")
+            R = L.Realiser()
+            ins, _outs = R.realise(prog)
+            return build_with_spec(R, ins, spec), None
+    except Exception as e:  # noqa: BLE001
+        return None, e
+
+
 def observe(prog):
     """Realise and build the program with the real code (public API only: argument/inline/build, the
     opset modules, to_function). If the program has `prebuild_outs`, the same Vars are first built into
-    another model with those outputs (multi-build history). Returns dict(model, error, stage, spies)."""
-    out = {"model": None, "error": None, "stage": None, "spies": None}
+    another model with those outputs; if it has a `history`, every spec but the last is built first, over
+    the same Vars (multi-build history). Returns dict(model, error, stage, spies, earlier)."""
+    out = {"model": None, "error": None, "stage": None, "spies": None, "earlier": []}
+    specs = prog.get("history") or []
     with Spies() as sp:
         try:
             from spox import build
@@ -177,6 +215,13 @@ def observe(prog):
         except Exception as e:  # noqa: BLE001
             out.update(error=e, stage="construct")
             return out
+        for spec in specs[:-1]:
+            try:
+                with warnings.catch_warnings():
+                    warnings.simplefilter("ignore")
+                    out["earlier"].append((spec, build_with_spec(R, ins, spec), None))
+            except Exception as e:  # noqa: BLE001
+                out["earlier"].append((spec, None, e))
         # function graphs are compiled once and cached: keep what the earlier build showed of them,
         # observe the adaptation of the final build only
         sp.earlier_roots = list(sp.roots)
@@ -185,7 +230,9 @@ def observe(prog):
         try:
             with warnings.catch_warnings():
                 warnings.simplefilter("ignore")
-                if prog.get("with_opset"):
+                if specs:
+                    out["model"] = build_with_spec(R, ins, specs[-1])
+                elif prog.get("with_opset"):
                     # the low-level Graph API: extra opset requirements, possibly spelled "ai.onnx"
                     from spox._graph import results
 
@@ -198,6 +245,30 @@ def observe(prog):
                     out["model"] = build(ins, outs)
         except Exception as e:  # noqa: BLE001
             out.update(error=e, stage="build")
+    return out
+
+
+def history_wiring(prog, obs):
+    """Every build of a history against the same build on fresh objects: the ModelProtos must be equal
+    (a difference is a broken correspondence; the values are judged separately by the oracle)."""
+    out = []
+    specs = prog.get("history") or []
+    if not specs or obs.get("stage") == "construct":
+        return out
+    built = list(obs["earlier"]) + [(specs[-1], obs["model"], obs["error"])]
+    for k, (spec, model, err) in enumerate(built):
+        fm, fe = fresh_build(prog, spec)
+        if (model is None) != (fm is None):
+            out.append(("history", f"build {k + 1} of {len(built)}: after the earlier builds "
+                        f"{'raises ' + type(err).__name__ if model is None else 'succeeds'}, on fresh objects "
+                        f"{'raises ' + type(fe).__name__ if fm is None else 'succeeds'}"))
+        elif model is not None and model.SerializeToString(deterministic=True) != fm.SerializeToString(deterministic=True):
+            diff = ""
+            for a, b in zip(model.graph.node, fm.graph.node):
+                if a != b:
+                    diff = f"{a.name}: inputs {list(a.input)} outputs {list(a.output)} vs {b.name}: inputs {list(b.input)} outputs {list(b.output)}"
+                    break
+            out.append(("history", f"build {k + 1} of {len(built)} differs from the same build on fresh objects ({diff or 'outside the main graph nodes'})"))
     return out
 
 
@@ -471,6 +542,14 @@ def compare(real, m, mismatches):
                 changed = (forms[0]["vals"], forms[0]["n_in"]) != (rec["orig_form"]["vals"], rec["orig_form"]["n_in"])
                 if e["mustChange"] and not changed:
                     mismatches.append(("converter", f"{rec['op']} -> {tgt}: form unchanged although the old form is not accepted at the target"))
+    by_name: dict = {}
+    for rec in real["abe"]:
+        if rec["cls"] == "convert" and rec["fresh"] is not None and rec.get("orig_form"):
+            k = (rec["name"], json.dumps(rec["orig_form"], sort_keys=True), json.dumps(rec["st"]))
+            first = by_name.setdefault(k, rec["fresh"])
+            if first != rec["fresh"]:
+                mismatches.append(("names", f"{rec['name']} ({rec['op']}) converted twice in one build (scopes of their own): "
+                                            f"introduced {first} and {rec['fresh']}; the model's names depend on the node name only"))
     if real["complete"]:
         if real["imports"] != m["imports"]:
             mismatches.append(("imports", f"real {real['imports']} model {m['imports']}"))
@@ -543,6 +622,34 @@ def process_case(args):
         except Exception as e:  # noqa: BLE001
             res["real"] = {"request": None, "abe": [], "complete": False,
                            "mismatches": [("correspondence-crash", f"{type(e).__name__}: {e}")]}
+        try:
+            for mm in history_wiring(prog, obs):
+                res["real"].setdefault("mismatches", []).append(mm)
+        except Exception as e:  # noqa: BLE001
+            res["real"].setdefault("mismatches", []).append(("correspondence-crash", f"history: {type(e).__name__}: {e}"))
+        try:
+            heavy = any(st["op"] in ("func", "reffn") or st.get("share") for st, *_ in L.walk(prog["nodes"]))
+            if not prog.get("history") and obs.get("stage") != "construct" and (heavy or fam == "targeted" or idx % 4 == 0):
+                # the same program built once more in this process, on fresh objects: same bytes (or the same
+                # failure). A difference is a broken correspondence — something outlives a build.
+                obs2 = observe(prog)
+                m1, m2 = obs["model"], obs2["model"]
+                if (m1 is None) != (m2 is None):
+                    res["real"].setdefault("mismatches", []).append(
+                        ("rebuild", f"first build {'raises ' + type(obs['error']).__name__ if m1 is None else 'succeeds'}, "
+                                    f"the same program built again {'raises ' + type(obs2['error']).__name__ if m2 is None else 'succeeds'}"))
+                elif m1 is not None and m1.SerializeToString(deterministic=True) != m2.SerializeToString(deterministic=True):
+                    diff = ""
+                    pairs = list(zip(m1.graph.node, m2.graph.node)) + [
+                        (a, b) for f1, f2 in zip(m1.functions, m2.functions) for a, b in zip(f1.node, f2.node)]
+                    for a, b in pairs:
+                        if a != b:
+                            diff = f"{a.name}: {list(a.input)} -> {list(a.output)} vs {b.name}: {list(b.input)} -> {list(b.output)}"
+                            break
+                    res["real"].setdefault("mismatches", []).append(
+                        ("rebuild", f"the same program built twice in one process gives different models ({diff or 'outside the nodes'})"))
+        except Exception as e:  # noqa: BLE001
+            res["real"].setdefault("mismatches", []).append(("correspondence-crash", f"rebuild: {type(e).__name__}: {e}"))
         verdict = judge(prog, obs)
         sp = obs["spies"]
         st = res["stats"]
@@ -615,20 +722,95 @@ def judge(prog, obs):
         else:
             b = v
         if b is not None and b[0] in RUNTIME_STAGES:
+            # an inlined legacy model is a mix of versions by itself: if the single-module program runs and
+            # agrees once its inlined models are taken out (and each of them runs alone — that is the
+            # reference), the runtime supports everything and the failure is the inlined models' handling
+            base2 = drop_inlines(base)
+            if base2 is not None:
+                b2 = judge1(base2, observe(base2))
+                if b2 is None and pieces_supported(prog):
+                    return v
             UNSUPPORTED.append((v[0], v[1][:120]))
             return None
     return v
 
 
-def judge1(prog, obs):
-    """Model-free verdict on one program. Returns (stage, message) of the first failure, or None."""
+def pieces_supported(prog) -> bool:
+    """Third parties on the pieces: every inlined legacy model, converted ALONE by onnx.version_converter to
+    the default-domain version the program must import, loads in onnxruntime and computes what it computes
+    at the version it was written in. (onnxruntime 1.30 refuses some converted LogSoftmax models by itself.)"""
     import onnx
+    import onnx.version_converter
     import onnxruntime as ort
 
+    tgt = L.expected_imports(prog).get("", 14)
+    for st, *_ in L.walk(prog["nodes"]):
+        if st["op"] != "inline" or st["model"]["kind"] not in ("oldx", "old"):
+            continue
+        md = st["model"]
+        try:
+            m = L.oldx_model(md, for_runtime=True) if md["kind"] == "oldx" else L.old_model(md["body"], md["opset"])
+            if md["opset"] != tgt:
+                m = onnx.version_converter.convert_version(m, tgt)
+            so = ort.SessionOptions()
+            so.log_severity_level = 4
+            sess = ort.InferenceSession(m.SerializeToString(), so, providers=["CPUExecutionProvider"])
+            for x, _y in XS:
+                got = sess.run(None, {"a": x})[0]
+                ref = L.oldx_reference(md, x) if md["kind"] == "oldx" else L.OLD_NP[md["body"]](x)
+                if not np.allclose(got, ref, rtol=2e-3, atol=1e-3, equal_nan=True):
+                    return False
+        except Exception:  # noqa: BLE001
+            return False
+    return True
+
+
+def drop_inlines(prog):
+    """The program with every inlined LEGACY model (hand-written, old opset) replaced by an inlined model built
+    by spox from the newest module the program uses — same structure (an inlined model feeding the same
+    consumers), nothing to convert. None if the program inlines no legacy model."""
+    p = copy.deepcopy(prog)
+    vs = [st.get("mv") for st, *_ in L.walk(p["nodes"]) if "mv" in st] + [17]
+    mv = max(v for v in vs if v)
+    n = 0
+    for st, *_ in L.walk(p["nodes"]):
+        if st["op"] == "inline" and st["model"].get("kind") in ("oldx", "old"):
+            n += 1
+            st["model"] = {"kind": "spox", "mv": mv,
+                           "prog": {"nodes": [{"id": "v9000", "op": "neg", "mv": mv, "args": ["x"]}], "out": "v9000"}}
+    return p if n else None
+
+
+def judge1(prog, obs):
+    """Model-free verdict on one program. Returns (stage, message) of the first failure, or None.
+    Every build of a history is judged (the earlier ones first), each against the abstract program its
+    outputs span and fed under the names that build was given."""
+    if obs["error"] is not None and obs["stage"] == "construct":
+        e = obs["error"]
+        return (f"construct-raises-{type(e).__name__}", str(e).splitlines()[0][:160] if str(e) else "")
+    specs = prog.get("history") or []
+    if specs:
+        built = list(obs.get("earlier") or []) + [(specs[-1], obs["model"], obs["error"])]
+        for k, (spec, model, err) in enumerate(built):
+            sub = L.spec_program(prog, spec)
+            tag = f" [build {k + 1} of {len(built)} over the same objects]"
+            if err is not None:
+                return (f"build-raises-{type(err).__name__}", (str(err).splitlines()[0][:140] if str(err) else "") + tag)
+            v = judge_model(sub, model, spec.get("names") or {}, [n for n, _ in spec["outs"]])
+            if v is not None:
+                return (v[0], v[1] + tag)
+        return None
     if obs["error"] is not None:
         e = obs["error"]
         return (f"{obs['stage']}-raises-{type(e).__name__}", str(e).splitlines()[0][:160] if str(e) else "")
-    model = obs["model"]
+    return judge_model(prog, obs["model"], {}, None)
+
+
+def judge_model(prog, model, names, out_names):
+    """One built model against the abstract program (model-free). `names`: role -> input name."""
+    import onnx
+    import onnxruntime as ort
+
     pairs = [("" if o.domain == "ai.onnx" else o.domain, o.version) for o in model.opset_import]
     doms = [d for d, _ in pairs]
     if len(set(doms)) != len(doms):
@@ -655,6 +837,10 @@ def judge1(prog, obs):
         node_problems(f.node, fi, f"function {f.name}", probs)
     if probs:
         return ("node-invalid-at-import", probs[0])
+    # custom-domain nodes (no runtime implements them; their meaning in the generated programs is the
+    # identity) are written as Identity for the checker's shape inference (onnx 1.22 crashes when an
+    # ai.onnx.ml node is fed by a value it cannot type) and for the runtime
+    model = L.strip_custom(model)
     try:
         onnx.checker.check_model(model, full_check=True)
     except Exception as e:  # noqa: BLE001
@@ -666,11 +852,23 @@ def judge1(prog, obs):
         so.log_severity_level = 4
         sess = ort.InferenceSession(model.SerializeToString(), so, providers=["CPUExecutionProvider"])
     except Exception as e:  # noqa: BLE001
-        return ("runtime-rejects", str(e).splitlines()[0][:200])
+        # onnxruntime 1.30's graph optimizer fails by itself on some valid models (Identity elimination next
+        # to a converted Softmax: "GetIndexFromName ... _new_reshape"): a model is rejected only if it is
+        # rejected with the optimizations switched off as well
+        try:
+            so.graph_optimization_level = ort.GraphOptimizationLevel.ORT_DISABLE_ALL
+            sess = ort.InferenceSession(model.SerializeToString(), so, providers=["CPUExecutionProvider"])
+            UNSUPPORTED.append(("runtime-optimizer-fails", str(e).splitlines()[0][:120]))
+        except Exception:  # noqa: BLE001
+            return ("runtime-rejects", str(e).splitlines()[0][:200])
+    if out_names is not None and [o.name for o in model.graph.output] != list(out_names):
+        return ("outputs-misnamed", f"outputs {[o.name for o in model.graph.output]}, requested {list(out_names)}")
+    roles = names
     names = {i.name for i in sess.get_inputs()}
     for (x, y) in XS:
         for c in (True, False):
             feed = {"x": x, "y": y, "c": np.array(c), "s": np.array([2, 3], np.int64)}
+            feed = {roles.get(k, k): v for k, v in feed.items()}
             feed = {k: v for k, v in feed.items() if k in names}
             try:
                 got = sess.run(None, feed)
@@ -681,8 +879,14 @@ def judge1(prog, obs):
             for g, r in zip(got, ref):
                 if g.shape != r.shape or g.dtype != r.dtype:
                     return ("results-differ", f"shape/dtype {g.shape}/{g.dtype} vs {r.shape}/{r.dtype}")
-                if not np.allclose(g, r, rtol=2e-3, atol=1e-3 * (1 + float(np.max(np.abs(r)))), equal_nan=True):
-                    return ("results-differ", f"max abs diff {float(np.max(np.abs(g - r))):.4g} (c={c})")
+                # non-finite entries (overflowing products) must sit at the same places; the tolerance is scaled
+                # by the largest FINITE reference value
+                fin = np.isfinite(r)
+                if not np.array_equal(fin, np.isfinite(g)) or not np.array_equal(np.isnan(r), np.isnan(g)):
+                    return ("results-differ", f"non-finite values at other places (c={c})")
+                scale = float(np.max(np.abs(r[fin]))) if fin.any() else 0.0
+                if not np.allclose(g[fin], r[fin], rtol=2e-3, atol=1e-3 * (1 + scale)):
+                    return ("results-differ", f"max abs diff {float(np.max(np.abs(g[fin] - r[fin]))):.4g} (c={c})")
             if "c" not in names:
                 break
     return None
@@ -714,6 +918,11 @@ def classify(stage, prog, msg=""):
     if stage in ("build-raises-InferenceError", "construct-raises-InferenceError") and "expect a" in msg \
             and "ref-attr-converted" in feats and feats <= (body_family | {"ref-attr-converted", "inline-converted"}):
         return "adapt:ref-attribute-in-function-body:build-fails"
+    if stage == "build-raises-BuildError" and "initializers" in msg and "inline-converted" in set(L.features(prog)):
+        return "adapt-inline:converter-initializers:build-fails"
+    if bad_attr and "inline-ml-node-form-rejected" in feats and feats <= (body_family | {"inline-ml-node-form-rejected", "inline-below-14-target-14"}) \
+            and "LabelEncoder" in msg:
+        return "adapt-inline:ml-node-form-rejected:build-fails"
     if bad_attr and feats == {"inline-below-14-target-14"}:
         return "adapt-inline:source-below-14:not-converted"
     return f"{stage}:{'+'.join(sorted(feats)) or 'plain'}"
@@ -806,10 +1015,41 @@ def shrink(prog, stage, budget=120):
                 vis.add(st["id"])
             return vis
 
+        defs: dict = {}
+        for st, *_ in L.walk(p["nodes"]):
+            if st["op"] == "func":  # one name, one definition (several applications share it)
+                d = json.dumps([st.get("domain"), st["params"], st["body"]], sort_keys=True)
+                if defs.setdefault(st["name"], d) != d:
+                    return False
+            if st["op"] == "reffn" and defs.setdefault("reffn:" + st["name"], st["mv"]) != st["mv"]:
+                return False
         vis = chk(p["nodes"], {"x", "y"})
         return vis is not False and all(o in vis for o in p["outs"]) and bool(p["nodes"])
 
-    if len(cur["outs"]) > 1:
+    if cur.get("history"):
+        # fewer builds, plainer specs (the last spec is the observed build: its outputs stay the program's)
+        k = 0
+        while k < len(cur["history"]) and len(cur["history"]) > 1:
+            cand = copy.deepcopy(cur)
+            del cand["history"][k]
+            cand["outs"] = [i for _, i in cand["history"][-1]["outs"]]
+            if still(cand):
+                cur = cand
+            else:
+                k += 1
+        for k in range(len(cur["history"])):
+            for field in ("renames", "low"):
+                if field in cur["history"][k]:
+                    cand = copy.deepcopy(cur)
+                    del cand["history"][k][field]
+                    if still(cand):
+                        cur = cand
+        used = {i for sp_ in cur["history"] for _, i in sp_["outs"]}
+        cand = L.prune(dict(copy.deepcopy(cur), outs=sorted(used)))
+        cand["outs"] = list(cur["outs"])
+        if still(cand):
+            cur = cand
+    if len(cur["outs"]) > 1 and not cur.get("history"):
         for o in list(cur["outs"]):
             cand = L.sink(L.prune(dict(cur, outs=[o])))
             if cand["nodes"] and still(cand):
@@ -838,7 +1078,8 @@ def witness_programs():
     out = []
     for name in ("C09-body-own-opsets.json", "C09-unknown-rank.json", "C09-duplicate-fresh-name.json",
                  "C09-inline-below-14.json", "C09-fresh-name-main-and-body.json",
-                 "C09-inline-in-body.json", "C09-ref-attribute.json"):
+                 "C09-inline-in-body.json", "C09-ref-attribute.json", "C09-inline-initializers.json",
+                 "C09-inline-ml-labelencoder1.json"):
         p = FINDINGS_DIR / name
         if p.exists():
             out.append((name, json.loads(p.read_text())["case"]["prog"]))
@@ -846,10 +1087,12 @@ def witness_programs():
 
 
 # ------------------------------------------------------------------------------------ run
-def gen_programs(ck):
+def gen_programs(ck, escalate=False):
+    """`escalate`: the covered functions of spox are not the pinned ones (new / changed code): three times
+    as many programs of the two families that exercise adaptation hardest, whatever was changed."""
     rng = ck.rng
     progs = []
-    n = ck.pick(1200, 20000)
+    n = ck.pick(950, 16000)
     for i in range(n):
         r = rng.random()
         clean = r < 0.85
@@ -872,6 +1115,22 @@ def gen_programs(ck):
             p2["outs"] = outs2
             L.align_unknown_rank(p2)
             progs.append(("history", p2))
+        if clean and not has_dyn and "with_opset" not in prog and rng.random() < 0.13:
+            # 2-3 builds over the same Vars, the names given to build changing between them
+            progs.append(("history-names", L.make_history(rng, prog, i)))
+    for i in range(ck.pick(150, 2000) * (3 if escalate else 1)):
+        progs.append(("inline-mix", L.inline_mix_program(rng, i)))
+    for i in range(ck.pick(100, 1500) * (3 if escalate else 1)):
+        progs.append(("func-twice", L.func_twice_program(rng, i)))
+    if escalate:
+        k = 0
+        while k < ck.pick(250, 2500):
+            g = L.Gen(rng, clean=True, size=rng.randrange(2, 10), max_depth=rng.randrange(0, 3), allow_dyn=False)
+            prog = g.program()
+            if L.tainted_ids(prog) or "with_opset" in prog:
+                continue
+            k += 1
+            progs.append(("history-names", L.make_history(rng, prog, 100000 + k)))
     return progs
 
 
@@ -978,6 +1237,111 @@ def targeted_programs():
     P.append({"nodes": [{"id": "f", "op": "func", "name": "fmix", "params": ["p"], "args": ["x"],
                          "body": {"nodes": [st("q", "rmean", 17, ["p"], axis=0), st("r", "rmax", 18, ["q"], axis=1)], "out": "r"}},
                         st("g", "rl2", 17, ["f"], axis=1)], "outs": ["g"]})
+    # legacy models that need real conversion AND use ai.onnx.ml / a custom domain, the domain requested at
+    # another version elsewhere: top level, an If body, a function body, another legacy model
+    def inl(i, arg, body, opset, **kw):
+        return {"id": i, "op": "inline", "model": dict({"kind": "oldx", "body": body, "opset": opset}, **kw), "args": [arg]}
+
+    def lab(i, arg, mv, dv=17):
+        return {"id": i, "op": "ml_label", "mv": mv, "dv": dv, "args": [arg]}
+
+    P.append({"nodes": [inl("a", "x", "pad_attr", 10)], "outs": ["a"]})
+    P.append({"nodes": [inl("a", "x", "pad_attr", 10, ml=["afe", 1]), st("b", "rmin", 18, ["a"], axis=1)], "outs": ["b"]})
+    P.append({"nodes": [inl("a", "x", "topk_attr", 9, custom=1), st("b", "identity", 21, ["a"])], "outs": ["b"]})
+    for k, (body, opset) in enumerate((("softmax3", 11), ("logsoftmax3", 12), ("softmax3_reshape", 11), ("logsoftmax3_reshape", 9), ("unsq_sq_relu", 9), ("rsum_attr", 12),
+                                       ("rmean_attr", 13), ("rmax_attr", 17), ("split_attr", 11), ("clip_attr", 10),
+                                       ("dropout_ratio", 11))):
+        mlk, mlv = (("scaler", 1), ("le2", 2), ("norm", 3), ("afe", 2), ("binarizer", 1))[k % 5]
+        top = (("identity", 21), ("isnan_w", 20), ("identity", 19), ("pad", 18))[k % 4]
+        hi = 3 + k % 3
+        # (a) requested at the top level
+        P.append({"nodes": [inl("a", "x", body, opset, ml=[mlk, mlv]), lab("m", "y", hi), st("t", top[0], top[1], ["a"]),
+                            st("d", "add", 17, ["t", "m"])], "outs": ["d"]})
+        # (b) inside an If body
+        P.append({"nodes": [inl("a", "x", body, opset, ml=[mlk, mlv], pos="before"),
+                            {"id": "i", "op": "if", "mv": 17, "cond": "c",
+                             "then": {"nodes": [lab("m", "y", hi)], "out": "m"},
+                             "else": {"nodes": [st("e", top[0], top[1], ["y"])], "out": "e"}},
+                            st("d", "sub", 17, ["a", "i"])], "outs": ["d"]})
+        # (c) inside a function body
+        P.append({"nodes": [inl("a", "x", body, opset, ml=[mlk, mlv], custom=2),
+                            {"id": "f", "op": "func", "name": f"fmlx{k}", "params": ["p"], "args": ["y"],
+                             "body": {"nodes": [lab("m", "p", hi)], "out": "m"}},
+                            st("t", top[0], top[1], ["f"]), st("d", "add", 17, ["a", "t"])], "outs": ["d", "f"]})
+        # (d) another legacy model: ml and the custom domain at other versions; the legacy model inside a body
+        P.append({"nodes": [inl("a", "x", body, opset, ml=[mlk, mlv], custom=1),
+                            inl("b", "a", "rmean_attr", 17, ml=["le2", 2 + (mlv == 2)], custom=3),
+                            st("t", top[0], top[1], ["b"])], "outs": ["t"]})
+        P.append({"nodes": [{"id": "i", "op": "if", "mv": 17, "cond": "nc",
+                             "then": {"nodes": [inl("a", "x", body, opset, ml=[mlk, mlv])], "out": "a"},
+                             "else": {"nodes": [st("e", "neg", 17, ["x"])], "out": "e"}},
+                            lab("m", "y", hi), st("t", top[0], top[1], ["m"]), st("d", "add", 17, ["i", "t"])], "outs": ["d"]})
+    # histories: 2-3 builds over the same Vars, every one needing conversion, names changing between builds
+    SW = {"x": "y", "y": "x"}
+    base = [st("a", "rmean", 17, ["x"], axis=1), st("b", "rmax", 18, ["y"], axis=0), st("d", "sub", 17, ["a", "b"]),
+            st("i17", "identity", 17, ["d"]), st("t", "identity", 21, ["i17"])]
+    P.append({"nodes": base, "outs": ["d"], "history": [{"names": {}, "outs": [["out0", "d"]]},
+                                                         {"names": SW, "outs": [["out0", "d"]]}]})
+    P.append({"nodes": base, "outs": ["t", "a"], "history": [{"names": {}, "outs": [["out0", "t"], ["out1", "a"]]},
+                                                              {"names": {"x": "p", "y": "q"}, "outs": [["out1", "t"], ["out0", "a"]]},
+                                                              {"names": SW, "outs": [["r0", "t"], ["r1", "a"]], "low": True}]})
+    P.append({"nodes": base, "outs": ["t"], "history": [{"names": {}, "outs": [["out0", "t"]], "renames": {"d": "zq0"}},
+                                                         {"names": {}, "outs": [["out0", "t"]], "renames": {"a": "zq0", "i17": "zq1"}},
+                                                         {"names": SW, "outs": [["out0", "t"]]}]})
+    P.append({"nodes": base, "outs": ["i17"], "history": [{"names": {}, "outs": [["out0", "i17"]], "low": True},
+                                                           {"names": SW, "outs": [["other", "i17"], ["out0", "t"]]},
+                                                           {"names": {}, "outs": [["out0", "i17"], ["other", "t"]]}]})
+    hin = [inl("a", "x", "softmax3_reshape", 11, ml=["scaler", 1]), inl("b", "y", "rsum_attr", 12), st("d", "sub", 17, ["a", "b"]),
+           st("e", "rl2", 17, ["d"], axis=1), st("t", "identity", 19, ["e"])]
+    P.append({"nodes": hin, "outs": ["t"], "history": [{"names": {}, "outs": [["out0", "t"]]},
+                                                        {"names": SW, "outs": [["out0", "t"]]},
+                                                        {"names": {"x": "q", "y": "p"}, "outs": [["r", "t"], ["s_", "b"]]}]})
+    P.append({"nodes": hin, "outs": ["t"], "history": [{"names": {}, "outs": [["out0", "b"], ["out1", "t"]]},
+                                                        {"names": SW, "outs": [["out0", "a"], ["out1", "t"]], "renames": {"d": "zq"}},
+                                                        ]})
+    hif = [{"id": "i", "op": "if", "mv": 17, "cond": "c",
+            "then": {"nodes": [st("u", "rmin", 17, ["x"], axis=1)], "out": "u"},
+            "else": {"nodes": [st("w", "rl1", 17, ["y"], axis=0)], "out": "w"}},
+           {"id": "f", "op": "func", "name": "fhist", "params": ["p"], "args": ["y"],
+            "body": {"nodes": [st("q", "rmean", 17, ["p"], axis=0)], "out": "q"}},
+           st("d", "add", 17, ["i", "f"]), st("t", "isnan_w", 20, ["d"])]
+    P.append({"nodes": hif, "outs": ["t", "f"], "history": [{"names": {}, "outs": [["out0", "t"], ["out1", "f"]]},
+                                                             {"names": SW, "outs": [["out0", "t"], ["out1", "f"]]},
+                                                             {"names": {"x": "p", "y": "q"}, "outs": [["out1", "t"], ["out0", "f"]], "low": True}]})
+    # one function applied several times, its body needing conversion, a newer operator raising the opset
+    def fn(i, name, args, body_nodes, out, params=("p",), domain="spox.verif"):
+        return {"id": i, "op": "func", "name": name, "domain": domain, "params": list(params), "args": args,
+                "body": {"nodes": copy.deepcopy(body_nodes), "out": out}}
+
+    for k, (bop, bp, top) in enumerate((("rmean", {"axis": 1}, ("identity", 21)), ("rmax", {"axis": 0}, ("identity", 19)),
+                                        ("rmin", {"axis": 1}, ("pad", 18)), ("split_cat", None, ("identity", 21)),
+                                        ("dft", None, ("isnan_w", 20)), ("grid_sample", None, ("identity", 21)),
+                                        ("rlogsum", None, ("identity", 19)))):
+        b = [dict({"id": "q", "op": bop, "mv": 17, "args": ["p"]}, **({"p": bp} if bp else {}))]
+        name = f"ftw_{bop}"
+        # twice in the main graph
+        P.append({"nodes": [fn("f1", name, ["x"], b, "q"), fn("f2", name, ["y"], b, "q"), st("d", "add", 17, ["f1", "f2"]),
+                            st("t", top[0], top[1], ["d"])], "outs": ["t"]})
+        # main graph + If body + nested application
+        P.append({"nodes": [fn("f1", name + "_b", ["x"], b, "q"),
+                            {"id": "i", "op": "if", "mv": 17, "cond": "c",
+                             "then": {"nodes": [fn("f2", name + "_b", ["y"], b, "q")], "out": "f2"},
+                             "else": {"nodes": [fn("f3", name + "_b", ["f1"], b, "q")], "out": "f3"}},
+                            st("d", "sub", 17, ["f1", "i"]), st("t", top[0], top[1], ["d"])], "outs": ["t"]})
+    # an inlined legacy model inside a function applied twice; one `inline` callable applied twice
+    b = [inl("m", "p", "rsum_attr", 12, ml=["scaler", 1]), st("q", "rl2", 17, ["m"], axis=0)]
+    P.append({"nodes": [fn("f1", "ftw_inl", ["x"], b, "q"), fn("f2", "ftw_inl", ["y"], b, "q"), st("d", "add", 17, ["f1", "f2"]),
+                        st("t", "identity", 21, ["d"])], "outs": ["t"]})
+    for body, opset in (("softmax3_reshape", 11), ("unsq_sq_relu", 12), ("rmean_attr", 17), ("pad_attr", 10)):
+        a1, a2 = inl("a", "x", body, opset, custom=2), inl("b", "a", body, opset, custom=2)
+        a1["share"] = a2["share"] = True
+        P.append({"nodes": [a1, a2, st("t", "identity", 19, ["b"])], "outs": ["t"]})
+        a3 = copy.deepcopy(a1)
+        a3.update(id="a3", args=["y"])
+        P.append({"nodes": [a1, {"id": "i", "op": "if", "mv": 17, "cond": "c",
+                                 "then": {"nodes": [a3], "out": "a3"},
+                                 "else": {"nodes": [st("e", "neg", 17, ["y"])], "out": "e"}},
+                            st("d", "add", 17, ["a", "i"]), st("t", "isnan_w", 20, ["d"])], "outs": ["t"]})
     # v17 If in a v21 model (kept although its schema changed)
     P.append({"nodes": [{"id": "i", "op": "if", "mv": 17, "cond": "nc",
                          "then": {"nodes": [st("t", "identity", 21, ["x"])], "out": "t"},
@@ -1054,7 +1418,8 @@ def run(ck: core.Check):
         ck.broken("translator", "opset_facts.generate", f"{type(e).__name__}: {e}")
         info = {"internal_min_opset": None, "shipped": [], "runs": {}, "compat": []}
     ck.cov["generated"] = {"INTERNAL_MIN_OPSET": info["internal_min_opset"], "shipped_rows": len(info["shipped"]),
-                           "schema_runs": len(info["runs"]), "form_compat_pairs": len(info["compat"])}
+                           "schema_runs": len(info["runs"]), "form_compat_pairs": len(info["compat"]),
+                           "adapt_state": info.get("adapt_state"), "adapt_attr_writes": info.get("adapt_attr_writes")}
     ck.lean(["SpoxModel.Props.C09"], audit="SpoxModel.Audit.C09")
     if ck.thorough:
         ck.leanchecker(["SpoxModel.Props.C09"])
@@ -1083,7 +1448,18 @@ def run(ck: core.Check):
 
     cases = [("witness:" + n, p) for n, p in witness_programs()]
     cases += [("targeted", p) for p in targeted_programs()]
-    cases += gen_programs(ck)
+    # the literal table of operators the ORT-referenced macros emit, against the single-version models
+    for opn in sorted(L.ORT_MACROS):
+        for mv in (17, 18, 20):
+            try:
+                got = L.single(opn, mv, {})["ops"]
+            except Exception:  # noqa: BLE001
+                continue  # the single-version model cannot be built on this tree: nothing to compare
+            if got != L.ORT_EMITS[opn](mv):
+                ck.broken("correspondence", "C09 macro table", f"{opn}@v{mv} emits {got}, table says {L.ORT_EMITS[opn](mv)}")
+    changed = list(info.get("ast_changed") or [])
+    ck.cov["covered_functions"] = {"hashed": len(info.get("ast_hashes") or {}), "changed_since_pin": changed}
+    cases += gen_programs(ck, escalate=bool(changed))
 
     stats = {"programs": 0, "built": 0, "max_depth": 0, "with_if": 0, "with_inline": 0, "with_func": 0,
              "with_ml": 0, "with_dyn": 0, "with_loop": 0, "with_changed_schema_op": 0, "with_history": 0, "nodes_adapted": 0, "converted_nodes": 0,
@@ -1177,7 +1553,8 @@ def run(ck: core.Check):
         stats["with_ml"] += int(any(o.startswith("ml_") for o in ops_used))
         stats["with_loop"] += int("loop" in ops_used)
         stats["with_changed_schema_op"] += int(any(o in L.ORT_MACROS for o in ops_used))
-        stats["with_history"] += int("prebuild_outs" in prog)
+        stats["with_history"] += int("prebuild_outs" in prog or "history" in prog)
+        stats["history_builds"] = stats.get("history_builds", 0) + len(prog.get("history") or [])
         for k in ("nodes_adapted", "converted_nodes", "converted_inlines"):
             stats[k] += r["stats"].get(k, 0)
         if "imports" in r["stats"]:
@@ -1206,7 +1583,9 @@ def run(ck: core.Check):
     ck.rule = (
         "fixed witnesses + targeted corner programs + seeded random programs (2-17 statements, If nesting <= 3, "
         "operators from ai.onnx v17-v21 and ai.onnx.ml v3-v5, inlined hand-written models at opsets 11/12/13/15 and "
-        "spox-built models at v17-v21, functions, values of unknown rank; 85% avoid the listed findings by "
+        "spox-built models at v17-v21, legacy models at opsets 9-17 that need real conversion and use ai.onnx.ml 1-3 / a custom "
+        "domain while the domain is requested at another version elsewhere, histories of 2-3 builds over the same objects "
+        "under changing argument / result / value names, functions, values of unknown rank; 85% avoid the listed findings by "
         "construction); non-trivial = at least one conversion or a body; distinct by abstract program"
     )
     ck.assumptions += [
